@@ -47,6 +47,7 @@ PROFILES = {
     "redirmany": dict(directed=True),
     "partialloss": dict(directed=True, conns=2),
     "hssplit": dict(directed=True, password="pw", replicas=1),
+    "errsplit": dict(directed=True),
     "ripen": dict(directed=True, timeout=True, real_timeout_ms=600),
     "leftover": dict(directed=True),
     "redirexpire": dict(directed=True, timeout=True),
@@ -386,6 +387,35 @@ def gen_hssplit(rng, sid):
     return {"id": sid, "steps": steps}
 
 
+def gen_errsplit(rng, sid):
+    """Directed: a node's error line reaches the proxy in two reads (cut in the middle, after one byte, just before or
+    inside the final CRLF), with other requests in flight on the same connection before and behind it."""
+    home = {"A": "n1", "B": "n2", "C": "n3"}
+    sl = rng.choice("ABC")
+    n = home[sl]
+    other = rng.choice([x for x in "ABC" if x != sl])
+    get = lambda s: {"k": rng.choice(["get", "set", "get"]), "slots": [s], "args": []}
+    before = rng.choice([0, 1, 2])
+    behind = rng.choice([0, 1, 3])
+    cls = rng.choice(["WRONGTYPE", "LOADING", "OOM", "BUSY", "ERR", "MISCONF", "=WRONGTYPE Operation against a key holding the wrong kind of value", "=E"])
+    cut = rng.choice(["", "cut:1", "cut:-1", "cut:-2", "cut:-3", "cut:5"])
+    steps = [{"stim": [{"op": "send", "c": "c1", "reqs": [get(sl) for _ in range(before + 1)]},
+                       {"op": "send", "c": "c2", "reqs": [get(sl) for _ in range(behind)] + [get(other)]}]}, {"stim": []},
+             {"stim": [{"op": "answer", "n": n, "kind": "ok"} for _ in range(before)] + [{"op": "answerhead", "n": n, "kind": "err", "cls": cls, "text": cut}]}, {"stim": []},
+             {"stim": [{"op": "send", "c": "c1", "reqs": [get(sl)]}] if rng.random() < 0.5 else []}, {"stim": []},
+             {"stim": [{"op": "answerrest", "n": n, "kind": "err"}] + [{"op": "answer", "n": n, "kind": rng.choice(["ok", "err", "nil"]), "cls": "ERR"} for _ in range(rng.choice([0, 1, behind]))]},
+             {"stim": [], "settle": True}]
+    for rnd in range(3):
+        steps.append({"stim": [{"op": "answer", "n": x, "kind": "ok"} for x in ("n1", "n2", "n3") for _ in range(4)], "settle": True})
+    for st in steps:
+        st.setdefault("settle", False)
+        st.setdefault("noIter", False)
+        for x in st["stim"]:
+            for k, v in (("c", ""), ("n", ""), ("reqs", []), ("hex", ""), ("kind", ""), ("cls", ""), ("to", ""), ("count", 0), ("src", ""), ("text", "")):
+                x.setdefault(k, v)
+    return {"id": sid, "steps": steps}
+
+
 def gen_redirmany(rng, sid):
     """Directed: a multi-key request over many slots (17-28 distinct ones, all owned by one node) every fragment of which
     is redirected once to another node."""
@@ -408,7 +438,7 @@ def gen_redirmany(rng, sid):
     return {"id": sid, "steps": steps}
 
 
-DIRECTED = {"hssplit": gen_hssplit, "partialloss": gen_partialloss, "ripen": gen_ripen, "redirmany": gen_redirmany, "redirorder": gen_redirorder, "redirexpire": gen_redirexpire, "leftover": gen_leftover}
+DIRECTED = {"errsplit": gen_errsplit, "hssplit": gen_hssplit, "partialloss": gen_partialloss, "ripen": gen_ripen, "redirmany": gen_redirmany, "redirorder": gen_redirorder, "redirexpire": gen_redirexpire, "leftover": gen_leftover}
 
 
 def gen_many(seed, profile, n):
@@ -619,6 +649,51 @@ def gen_seg_pair(seed, npipes, tags):
                          {"stim": [{"op": "sendrest", "c": c} for c in order]}, {"stim": [], "settle": True}]
             steps += drain_steps(2, 6)
             out.append(_norm({"id": "segpair-%s-%d-%d" % (seed, p, v), "role": "base" if v == 0 else "seg", "steps": json.loads(json.dumps(steps))}))
+    return out
+
+
+def gen_seg_seq(seed, n, tags):
+    """Groups of four: successive requests of growing length on one connection, each answered before the next is sent -
+    whole (base), and each cut in two (seg) with the first piece of a request exactly as long as the whole previous
+    request, a little longer, or cut anywhere.  What is left over from assembling an earlier cut request must not show
+    up in a later one."""
+    rng = random.Random("segseq/%s" % seed)
+    slots = ["A", "A2", "B", "C"]
+    out = []
+    for p in range(n):
+        m = rng.choice([3, 4, 5])
+        reqs = []
+        for x in range(m):
+            k = rng.choice(["get", "set", "mget", "mset", "del", "mset", "mget"]) if x else rng.choice(["get", "set", "del", "mset"])
+            nk = 1 if k in ("get", "set") else min(1 + x + rng.choice([0, 1]), 6)
+            if k in ("get", "set"):
+                reqs.append({"k": k, "slots": [rng.choice(slots)], "dups": [-1]})
+            else:
+                sl, du = gen_keylist(rng, nk, slots)
+                reqs.append({"k": k, "slots": sl, "dups": du})
+        # ascending by length (the position is part of the key names, so measure in place and settle on an order)
+        for _ in range(3):
+            lens = [len(concrete(tags, "c1", i + 1, r)) for i, r in enumerate(reqs)]
+            order = sorted(range(m), key=lambda i: lens[i])
+            if order == list(range(m)):
+                break
+            reqs = [reqs[i] for i in order]
+        lens = [len(concrete(tags, "c1", i + 1, r)) for i, r in enumerate(reqs)]
+        for v in range(4):
+            steps = []
+            for i, r in enumerate(reqs):
+                L = lens[i]
+                prev = lens[i - 1] if i else 0
+                if v == 0:
+                    cuts = []
+                elif i == 0 or prev >= L or v == 3:
+                    cuts = [rng.randint(1, L - 1)]
+                elif v == 1:
+                    cuts = [prev]
+                else:
+                    cuts = [min(L - 1, prev + rng.choice([1, 2, 5, 9]))]
+                steps += [{"stim": [{"op": "send", "c": "c1", "reqs": [r], "cuts": cuts}]}, {"stim": [], "settle": True}] + drain_steps(2, 8)
+            out.append(_norm({"id": "segseq-%s-%d-%d" % (seed, p, v), "role": "base" if v == 0 else "seg", "steps": json.loads(json.dumps(steps))}))
     return out
 
 
